@@ -762,7 +762,7 @@ func (k *r10client) Instr(s r10state, in ssa.Instruction) (r10state, bool, []r10
 				own = true
 			}
 		}
-		if !own && namedOf(cc.Args[0].Type()) != nil && namedOf(cc.Args[0].Type()).Obj().Name() == "foldContext" {
+		if !own && namedOf(cc.Args[0].Type()) != nil && core.TypeName(namedOf(cc.Args[0].Type())) == "foldContext" {
 			nt = k.e.declared(k.fn)
 		}
 	}
@@ -866,12 +866,12 @@ func isFoldShaped(sig *types.Signature) bool {
 		return false
 	}
 	p0 := sig.Params().At(0).Type()
-	if n := namedOf(p0); n != nil && n.Obj().Name() == "foldContext" {
+	if n := namedOf(p0); n != nil && core.TypeName(n) == "foldContext" {
 		return true
 	}
 	// userFoldFn(unsafe.Pointer, ExtVisitor)
 	if sig.Params().Len() == 2 {
-		if n := namedOf(sig.Params().At(1).Type()); n != nil && strings.HasSuffix(n.Obj().Name(), "Visitor") {
+		if n := namedOf(sig.Params().At(1).Type()); n != nil && strings.HasSuffix(core.TypeName(n), "Visitor") {
 			return true
 		}
 	}
@@ -894,7 +894,7 @@ func isProducerFunc(p *core.Prog, f *ssa.Function) bool {
 			return false
 		}
 		n := namedOf(f.Signature.Recv().Type())
-		return n != nil && strings.HasPrefix(n.Obj().Name(), "ext")
+		return n != nil && strings.HasPrefix(core.TypeName(n), "ext")
 	case "gotype":
 		return isFoldShaped(f.Signature) && errResultIndex(f.Signature) >= 0
 	}
